@@ -56,6 +56,11 @@ def uni_chars():
     return sorted(set(out))
 
 
+# numeric character references: every value, hex and decimal, through the CLI (its output is printed, so whatever a
+# reference decodes to has to be encodable)
+ENT_MAX = 0x110002
+ENT_FORMS = ["&#x{:X};", "&#{:d};"]
+ENT_WRAP = ["{} ", "[a](u \"{}\") ", "``` {}\n```\n\n"]
 BOMS = [b"\xef\xbb\xbf", b"\xff\xfe", b"\xfe\xff", b"\xff\xfe\x00\x00", b"\x00\x00\xfe\xff", b"+/v8", b"\xf7\x64\x4c"]
 
 
@@ -63,6 +68,8 @@ def bounds(tier):
     d = I.describe(tier)
     d["cli_byte_order_marks"] = [b.hex() for b in BOMS]
     d["unicode_sweep"] = {"templates": len(UNI_TEMPLATES), "code_points": len(uni_chars())}
+    d["cli_numeric_references"] = {"values": f"0..{ENT_MAX - 1:#x}, all", "forms": ENT_FORMS, "wrapped_in": ENT_WRAP,
+                                   "note": "title/fence-info wrappers on the 0x4000-blocks at 0x0000 and 0xC000 of every plane"}
     d["cli_bytes"] = {"alphabet": [hex(b) for b in BYTES], "max_len": 3 if tier == "thorough" else 2}
     return d
 
@@ -81,6 +88,8 @@ def shards(tier):
     n = len(S.corpus_seeds())
     for i in range(0, n, 100):
         sh.append(("clicorpus", i, min(n, i + 100)))
+    for lo in range(0, ENT_MAX, 0x4000):
+        sh.append(("client", lo, min(ENT_MAX, lo + 0x4000)))
     return sh
 
 
@@ -180,6 +189,18 @@ def run_shard(sh, acc):
         for k in range(0, L + 1):
             for combo in itertools.product(BYTES, repeat=k):
                 _cli_one(BOMS[bi] + bytes(combo), acc)
+        return
+    if kind == "client":
+        _, lo, hi = sh
+        for form in ENT_FORMS:
+            for wrap in ENT_WRAP:
+                if wrap != ENT_WRAP[0] and lo % 0x10000 not in (0, 0xC000):
+                    continue  # (title and fence info: the blocks around the plane boundaries and the surrogates only)
+                doc = "".join(wrap.format(form.format(v)) for v in range(lo, hi))
+                if not _cli_one(doc.encode("utf8"), acc, report=False):
+                    # minimal witness: the single references of this block
+                    for v in range(lo, hi):
+                        _cli_one(wrap.format(form.format(v)).encode("utf8"), acc, sig=False)
         return
     if kind == "clicorpus":
         _, lo, hi = sh
@@ -292,31 +313,42 @@ def _nolinkifier(acc):
     acc.sample("nolinkifier", {"preset": "commonmark", "src": "http://a.b"})
 
 
-def _cli_one(raw, acc):
+def _cli_one(raw, acc, report=True, sig=True):
+    """returns True when the CLI returned normally"""
     from markdown_it.cli import parse as cli
 
     acc.case()
+    ok = False
     fd, path = tempfile.mkstemp(prefix="c01cli", dir="/dev/shm" if os.path.isdir("/dev/shm") else None)
     try:
         os.write(fd, raw)
         os.close(fd)
         old = sys.stdout
-        sys.stdout = buf = io.StringIO()
+        # an encoding stream, as the real stdout is: text that cannot be encoded fails in print(), inside the CLI
+        raw_out = io.BytesIO()
+        sys.stdout = io.TextIOWrapper(raw_out, encoding="utf-8", errors="strict", write_through=True)
         try:
             signal.setitimer(signal.ITIMER_REAL, HANG_S)
             rc = cli.main([path])
+            sys.stdout.flush()
             signal.setitimer(signal.ITIMER_REAL, 0)
-            acc.sig(("cli", len(buf.getvalue()) > 0, rc))
+            if sig:
+                acc.sig(("cli", len(raw_out.getvalue()) > 0, rc))
+            ok = True
         except HangTimeout:
             sys.stdout = old
-            acc.violation("cli", "hang", {"hex": raw.hex()}, "CLI did not return within the watchdog")
+            if report:
+                acc.violation("cli", "hang", {"hex": raw.hex()}, "CLI did not return within the watchdog")
         except BaseException as e:
             signal.setitimer(signal.ITIMER_REAL, 0)
             sys.stdout = old
-            acc.violation("cli", type(e).__name__, {"hex": raw.hex()}, f"{type(e).__name__}: {e}")
+            if report:
+                acc.violation("cli", type(e).__name__, {"hex": raw.hex()}, f"{type(e).__name__}: {e}")
         finally:
             signal.setitimer(signal.ITIMER_REAL, 0)
             sys.stdout = old
     finally:
         os.unlink(path)
-    acc.sample("cli", {"hex": raw.hex()}, 1)
+    if report:
+        acc.sample("cli", {"hex": raw.hex()}, 1)
+    return ok
